@@ -4,6 +4,8 @@ import (
 	"context"
 	"fmt"
 	"os"
+	"runtime"
+	"runtime/debug"
 	"sort"
 	"strings"
 	"testing"
@@ -21,7 +23,14 @@ import (
 var stats = evid.New("C10", "rapid: a repository history of 0..40 committed bundles (real core uploads of small generated trees, harness KSUIDs in upload order, some sharing a second) interleaved with 0..3 uploads interrupted by a crash of the uploader at a drawn metadata write (every index-file write and the descriptor write, effect landed or not) placed before / between / after the committed ones; 0..6 label operations (clearly-semver and clearly-not names, several labels on one bundle, labels moved); optionally a bystander repository whose name extends the squashed one. Then core.RepoSquash with retain-N unset|1..5, retain option none|tags|semver|both, batch size and list concurrency as the CLI passes them. Oracle: reference model kept = N committed bundles with the largest IDs + (semver-)labelled committed bundles when requested; after squash ListBundles == kept, ListLabels == labels on kept bundles, nothing is left under a removed bundle's prefix, kept bundles download (Publish) to their original bytes, the bystander repository is byte-identical. Non-trivial: a visible leftover sorts after the newest committed bundle, or a retain option keeps a labelled bundle outside the N newest; distinct by (n class, n>N, N, option, worst leftover position, label-retained flag).")
 
 func TestMain(m *testing.M) {
+	if os.Getenv("GOGC") == "" {
+		// every core.NewBundle / cafs.New allocates ~0.5 MB of short-lived tables: collect less often
+		debug.SetGCPercent(400)
+	}
 	code := m.Run()
+	if os.Getenv("VERIF_C10_DEBUG") != "" {
+		fmt.Fprintf(os.Stderr, "c10: %d goroutines at exit\n", runtime.NumGoroutine())
+	}
 	stats.Flush()
 	os.Exit(code)
 }
